@@ -85,6 +85,12 @@ def run_one(s):
                 out = fast(x, lambda s: a * s + b)
             elif form == "single_tensor":
                 out = fast(x, fvals(fids[0], m))
+            elif form in ("funcset", "funcset_sum"):     # a FunctionSet (or a sum of two) whose parameters are the function ids
+                def mkfs(ids):
+                    ps = tp.samplers.DataSampler(Points(torch.tensor([[float(k)] for k in ids], dtype=torch.float64), tp.spaces.R1("k")))
+                    return tp.domains.CustomFunctionSet(Fs, ps, lambda k, s: (torch.remainder(k, 3) - 1) * s + (torch.remainder(2 * k, 5) - 2))
+                fs = mkfs(fids) if form == "funcset" else mkfs(fids[:1]) + mkfs(fids[1:])
+                out = fast(x, fs)
             else:
                 raise ValueError(form)
             B = fast.branch.current_out.detach()
